@@ -1,4 +1,5 @@
 import Properties.C10
+import Proofs.MsgLayer.ShutFlag
 /-!
 # C18 — shutdown at any moment fails pending work and leaves nothing running
 
@@ -136,6 +137,58 @@ theorem C18_shutdown_after_any_history (s0 : State) (pre : List TEv)
 is shut down changes nothing and reports nothing. -/
 theorem C18_shutdown_idempotent (s : State) (h : Shut s) : shutdown s = (s, []) := by
   simp [shutdown, h.tok]
+
+/-- a context is either open for business or completely shut down — there is no state in which the
+token manager has shut down and something is still pending -/
+def OpenOrShut (s : State) : Prop := s.shutTok = false ∨ Shut s
+
+theorem OpenOrShut_step (s : State) (h : OpenOrShut s) (e : TEv) : OpenOrShut (step s e).1 := by
+  rcases h with h | h
+  · by_cases hev : e.ev = .shutdown
+    · right
+      have h0 : (setNow s e.time).shutTok = false := h
+      simp only [step, hev, handle]
+      exact (C18_all_fail _ h0).2.2.2
+    · left
+      have := (handle_flags (setNow s e.time) e.ev hev).2
+      simp only [step]
+      rw [this]; exact h
+  · right
+    exact (C18_silent_after (setNow s e.time)
+      (Shut_of_fields h rfl rfl rfl rfl rfl rfl rfl) e.ev).1
+
+theorem OpenOrShut_run (es : List TEv) : ∀ s : State, OpenOrShut s → OpenOrShut (run s es).1 := by
+  induction es with
+  | nil => intro s h; exact h
+  | cons e es ih => intro s h; exact ih _ (OpenOrShut_step s h e)
+
+/-- **C18 (no half-shut state is reachable).** In every state a context can reach from its
+creation, by any history, either the token manager is not shut down or *everything* is: both
+flags set, no exchange, backlog, ACK opportunity, outstanding or served request left. -/
+theorem C18_open_or_shut (cfg : Cfg) (mid token : Nat) (drawFn : Nat → Nat) (pre : List TEv) :
+    OpenOrShut (run (init cfg mid token drawFn) pre).1 :=
+  OpenOrShut_run pre _ (Or.inl rfl)
+
+/-- **C18 (the property, without hypotheses).** For every configuration, every history `pre` from
+the creation of the context (which may itself contain shutdowns), every time `t` and every
+continuation `es`: from the shutdown at `t` on nothing at all is transmitted, the context ends
+shut down, and whatever was outstanding or being served at `t` has been failed with
+`LibraryShutdown` / stopped by the end of that step. -/
+theorem C18_shutdown_at_any_moment (cfg : Cfg) (mid token : Nat) (drawFn : Nat → Nat)
+    (pre : List TEv) (t : Nat) (es : List TEv) :
+    sendsOf (run (run (init cfg mid token drawFn) pre).1 (⟨t, .shutdown⟩ :: es)).2 = [] ∧
+    Shut (run (run (init cfg mid token drawFn) pre).1 (⟨t, .shutdown⟩ :: es)).1 ∧
+    (∀ o ∈ (run (init cfg mid token drawFn) pre).1.outgoing, Out.fail o.req .libraryShutdown ∈
+      (run (run (init cfg mid token drawFn) pre).1 (⟨t, .shutdown⟩ :: es)).2) ∧
+    (∀ i ∈ (run (init cfg mid token drawFn) pre).1.incoming, Out.stop i.srv ∈
+      (run (run (init cfg mid token drawFn) pre).1 (⟨t, .shutdown⟩ :: es)).2) := by
+  rcases C18_open_or_shut cfg mid token drawFn pre with h | h
+  · obtain ⟨h1, h2, h3, h4⟩ := C18_shutdown_anywhere _ h t es
+    exact ⟨h3, h4, h1, h2⟩
+  · have hr := C18_silent_forever _ h (⟨t, .shutdown⟩ :: es)
+    refine ⟨hr.2, hr.1, ?_, ?_⟩
+    · intro o ho; rw [h.og] at ho; cases ho
+    · intro i hi; rw [h.ic] at hi; cases hi
 
 theorem count_map_inj {α β : Type} [DecidableEq α] [DecidableEq β] (f : α → β)
     (hf : ∀ a b, f a = f b → a = b) (a : α) (l : List α) : (l.map f).count (f a) = l.count a := by
